@@ -106,7 +106,7 @@ def build(quiet=True) -> BuildInfo:
             if not os.path.exists(drv) or os.path.getmtime(drv) < newest:
                 for s in srcs:
                     sh(['cp', s, BUILD])
-                order = ['util.ml', 'static_cmds.ml', 'sched_cmds.ml', 'build_cmds.ml']
+                order = ['util.ml', 'static_cmds.ml', 'sched_cmds.ml', 'build_cmds.ml', 'attrs_cmds.ml']
                 names = [f for f in order if os.path.exists(os.path.join(OCAML, f))] + [os.path.basename(s) for s in srcs if os.path.basename(s) not in order + ['driver.ml']] + ['driver.ml']
                 rc, out, err = sh('ocamlfind ocamlopt -w -a -package str,unix -linkpkg model.mli model.ml ' + ' '.join(names) + ' -o driver',
                                   cwd=BUILD, timeout=300)
